@@ -1318,3 +1318,29 @@ def multi_comment_ops(root, r):
     else:
         op('transaction.auto_claim_comments()', t.auto_claim_comments)
     return out
+
+
+def assign_then_claim_ops(root, r):
+    """A transaction is given a deep copy of another transaction's postings (or meta) list, a comment next to it is released by its
+    owner, and the assigned list is asked to claim what it can reach: it must stay within the transaction it now belongs to."""
+    from autobean_refactor.models.internal.surrounding_comments import SurroundingCommentsMixin
+    txns = [(p, m) for p, m in walker.tree_models(root) if isinstance(m, models.Transaction)]
+    if not txns:
+        return []
+    pb, b = r.choice(txns)
+    donor = common.parser().parse('2000-01-01 * "donor"\n  dd: 1\n  ; a comment of the donor\n  Assets:Donor  1 USD\n  Assets:Other\n', models.File)
+    pa, a = r.choice([t for t in txns if t[1] is not b] + [('<donor>', donor.directives[0])])
+    attr = r.choice(['raw_postings_with_comments', 'raw_postings_with_comments', 'raw_meta_with_comments'])
+    out = []
+
+    def op(desc, fn):
+        out.append(Op('claim:assign', f'[{pb}] {desc}', root, '$', lambda: [], fn))
+    op(f'{attr} = deepcopy({pa}.{attr})', lambda: setattr(b, attr, copy.deepcopy(getattr(a, attr))))
+    sibs = [m for _, m in walker.tree_models(root) if isinstance(m, SurroundingCommentsMixin) and m is not b]
+    for m in r.sample(sibs, min(3, len(sibs))):
+        op('a neighbour releases its leading comment', m.unclaim_leading_comment)
+    op('releases its own trailing comment', b.unclaim_trailing_comment)
+    op(f'{attr}.claim_interleaving_comments()', lambda: getattr(b, attr).claim_interleaving_comments())
+    if r.random() < 0.5:
+        op('file.auto_claim_comments()', root.auto_claim_comments)
+    return out
